@@ -130,140 +130,61 @@ theorem plusPeriod_time_mod (t : LocalTime) (p : TimePeriod) (hv : Valid t) :
 
 /-! ### addition with day carry -/
 
-/-- `_add_local_time_with_extra_days`: `t + k·unit = days·24h + t'` with `t'` a valid time. -/
-theorem addWithDays_exact (u : TimeUnit) (t t' : LocalTime) (k d : Int) (hv : Valid t)
-    (h : u.addLocalTimeWithExtraDays t k = .ok (t', d)) :
-    Valid t' ∧ t.nod + k * u.nanos = d * NPD + t'.nod := by
-  unfold addLocalTimeWithExtraDays at h
-  split at h
-  · rename_i hk; simp only [Except.ok.injEq, Prod.mk.injEq] at h; obtain ⟨rfl, rfl⟩ := h; subst hk
-    exact ⟨hv, by omega⟩
-  · split at h
-    · rename_i hk; exact pos_branch u t t' k d hv hk h
-    · rename_i hk; exact neg_branch u t t' k d hv hk h
-
-/-- inside the Decimal domain (|k| < 10^27) the step never fails -/
-theorem addWithDays_ok (u : TimeUnit) (t : LocalTime) (k : Int) (h1 : -decBound < k) (h2 : k < decBound) :
-    ∃ r, u.addLocalTimeWithExtraDays t k = .ok r := by
+/-- `_add_local_time_with_extra_days`, for every integer amount: `t + k·unit = days·24h + t'` with `t'` a valid time. -/
+theorem addWithDays_exact (u : TimeUnit) (t : LocalTime) (k : Int) (hv : Valid t) :
+    Valid (u.addLocalTimeWithExtraDays t k).1 ∧
+      t.nod + k * u.nanos = (u.addLocalTimeWithExtraDays t k).2 * NPD + (u.addLocalTimeWithExtraDays t k).1.nod := by
   unfold addLocalTimeWithExtraDays
   split
-  · exact ⟨_, rfl⟩
+  · rename_i hk; subst hk; exact ⟨hv, by simp only; omega⟩
   · split
-    · rw [splitDays_dom u _ k h1 h2]
-      exact ite_ok_exists _ _
-    · rw [splitDays_dom u _ k h1 h2]
-      exact ite_ok_exists _ _
-
-/-- beyond it the only failure is the Decimal-domain error of `_towards_zero_division` (the model says nothing
-    about the value the code produces there) -/
-theorem addWithDays_error_kind (u : TimeUnit) (t : LocalTime) (k : Int) (e : PyExc)
-    (h : u.addLocalTimeWithExtraDays t k = .error e) : e = .decimalDomain ∧ (k ≤ -decBound ∨ decBound ≤ k) := by
-  unfold addLocalTimeWithExtraDays at h
-  split at h
-  · cases h
-  · split at h
-    · cases hs : u.splitDays (decide (k ≥ u.unitsPerDay)) k with
-      | error e' =>
-        rw [hs] at h; simp only [bind, Except.bind] at h; cases h
-        exact splitDays_err _ _ _ _ hs
-      | ok dv => rw [hs] at h; exact absurd h (ite_ok_ne_error _ _ _)
-    · cases hs : u.splitDays (decide (k ≤ -u.unitsPerDay)) k with
-      | error e' =>
-        rw [hs] at h; simp only [bind, Except.bind] at h; cases h
-        exact splitDays_err _ _ _ _ hs
-      | ok dv => rw [hs] at h; exact absurd h (ite_ok_ne_error _ _ _)
+    · rename_i hk; exact pos_branch u t k hv hk
+    · rename_i hk; exact neg_branch u t k hv hk
 
 /-! ### LocalDateTime -/
 
-/-- `LocalDateTime.plus_<unit>(k)`: the result is exactly `k` units later on the local time line
-    (day number x 24 h + nanosecond-of-day), its time is valid and its day is inside the calendar. -/
+/-- `LocalDateTime.plus_<unit>(k)`, for every integer amount: the result is exactly `k` units later on the local time
+    line (day number x 24 h + nanosecond-of-day), its time is valid and its day is inside the calendar. -/
 theorem addLocalDateTime_exact (u : TimeUnit) (r : DayRange) (l l' : LocalDateTime) (k : Int)
     (hv : Valid l.time) (hr : InRange r l.day) (h : u.addLocalDateTime r l k = .ok l') :
     Valid l'.time ∧ InRange r l'.day ∧
       l.day * NPD + l.time.nod + k * u.nanos = l'.day * NPD + l'.time.nod := by
   unfold addLocalDateTime at h
-  cases hte : u.addLocalTimeWithExtraDays l.time k with
-  | error e => rw [hte] at h; cases h
-  | ok te =>
-    obtain ⟨t', d⟩ := te
-    rw [hte] at h
-    obtain ⟨hv', hx⟩ := addWithDays_exact u l.time t' k d hv hte
-    simp only [bind, Except.bind] at h
-    by_cases hd : d = 0
-    · simp only [hd, if_true, Except.ok.injEq] at h; subst h
-      refine ⟨hv', hr, ?_⟩
-      simp only [NPD] at *; subst hd; omega
-    · simp only [hd, if_false] at h
-      cases hp : r.plusDays l.day d with
-      | error e => rw [hp] at h; cases h
-      | ok nd =>
-        rw [hp] at h
-        simp only [Except.ok.injEq] at h; subst h
-        obtain ⟨h1, h2⟩ := addFixed_ok r 1 l.day d nd hp hr
-        refine ⟨hv', h2, ?_⟩
-        simp only [NPD] at *; subst h1; omega
+  obtain ⟨hv', hx⟩ := addWithDays_exact u l.time k hv
+  generalize u.addLocalTimeWithExtraDays l.time k = te at h hv' hx
+  obtain ⟨t', d⟩ := te
+  simp only at h hv' hx
+  by_cases hd : d = 0
+  · simp only [hd, if_true, bind, Except.bind, Except.ok.injEq] at h; subst h
+    refine ⟨hv', hr, ?_⟩
+    simp only [NPD] at *; subst hd; omega
+  · simp only [hd, if_false] at h
+    cases hp : r.plusDays l.day d with
+    | error e => rw [hp] at h; cases h
+    | ok nd =>
+      rw [hp] at h
+      simp only [bind, Except.bind, Except.ok.injEq] at h; subst h
+      obtain ⟨h1, h2⟩ := addFixed_ok r 1 l.day d nd hp hr
+      refine ⟨hv', h2, ?_⟩
+      simp only [NPD] at *; subst h1; omega
 
-theorem timeSteps_exact (t t' : LocalTime) (p : TimePeriod) (e : Int) (hv : Valid t)
-    (h : LocalDateTime.timeSteps t p = .ok (t', e)) :
-    Valid t' ∧ t.nod + p.hours * NPH + p.minutes * NPMin + p.seconds * NPS + p.milliseconds * NPMs
-      + p.ticks * NPT + p.nanoseconds = e * NPD + t'.nod := by
-  unfold LocalDateTime.timeSteps at h
-  obtain ⟨⟨t1, e1⟩, h1, h⟩ := bind_ok_inv _ _ _ h
-  obtain ⟨⟨t2, e2⟩, h2, h⟩ := bind_ok_inv _ _ _ h
-  obtain ⟨⟨t3, e3⟩, h3, h⟩ := bind_ok_inv _ _ _ h
-  obtain ⟨⟨t4, e4⟩, h4, h⟩ := bind_ok_inv _ _ _ h
-  obtain ⟨⟨t5, e5⟩, h5, h⟩ := bind_ok_inv _ _ _ h
-  obtain ⟨⟨t6, e6⟩, h6, h⟩ := bind_ok_inv _ _ _ h
-  simp only [Except.ok.injEq, Prod.mk.injEq] at h
-  obtain ⟨rfl, rfl⟩ := h
-  obtain ⟨v1, x1⟩ := addWithDays_exact _ _ _ _ _ hv h1
-  obtain ⟨v2, x2⟩ := addWithDays_exact _ _ _ _ _ v1 h2
-  obtain ⟨v3, x3⟩ := addWithDays_exact _ _ _ _ _ v2 h3
-  obtain ⟨v4, x4⟩ := addWithDays_exact _ _ _ _ _ v3 h4
-  obtain ⟨v5, x5⟩ := addWithDays_exact _ _ _ _ _ v4 h5
-  obtain ⟨v6, x6⟩ := addWithDays_exact _ _ _ _ _ v5 h6
-  refine ⟨v6, ?_⟩
-  simp only [TimeUnit.nanos] at *
-  c10_consts
-  omega
-
-/-- `plus(Period)`: weeks, days and all time units are added exactly, with the carry into the day number
-    (`d1` is the day reached after the years and months, C09). -/
-theorem plusPeriod_exact (r : DayRange) (l l' : LocalDateTime) (d1 : Int) (p : TimePeriod)
-    (hv : Valid l.time) (hd1 : InRange r d1) (h : LocalDateTime.plusPeriod r l d1 p = .ok l') :
-    Valid l'.time ∧ InRange r l'.day ∧
-      (d1 + 7 * p.weeks + p.days) * NPD + l.time.nod + p.hours * NPH + p.minutes * NPMin + p.seconds * NPS
-        + p.milliseconds * NPMs + p.ticks * NPT + p.nanoseconds = l'.day * NPD + l'.time.nod := by
-  unfold LocalDateTime.plusPeriod at h
-  obtain ⟨⟨t', e⟩, hts, h⟩ := bind_ok_inv _ _ _ h
-  obtain ⟨dw, hw, h⟩ := bind_ok_inv _ _ _ h
-  obtain ⟨dd, hd, h⟩ := bind_ok_inv _ _ _ h
-  simp only [Except.ok.injEq] at h; subst h
-  obtain ⟨vt, xt⟩ := timeSteps_exact _ _ _ _ hv hts
-  obtain ⟨ew, rw'⟩ := addFixed_ok r 7 d1 p.weeks dw hw hd1
-  obtain ⟨ed, rd⟩ := addFixed_ok r 1 dw (p.days + e) dd hd rw'
-  refine ⟨vt, rd, ?_⟩
-  simp only at *
-  c10_consts
-  omega
-
-/-- Inside the Decimal domain `plus_<unit>` raises exactly when the day of the exact result is outside the
+/-- For every integer amount `plus_<unit>` raises exactly when the day of the exact result is outside the
     calendar, and then OverflowError or ValueError. -/
 theorem addLocalDateTime_raises_iff (u : TimeUnit) (r : DayRange) (l : LocalDateTime) (k : Int)
-    (hv : Valid l.time) (hr : InRange r l.day) (h1 : -decBound < k) (h2 : k < decBound) :
+    (hv : Valid l.time) (hr : InRange r l.day) :
     ((∃ e, u.addLocalDateTime r l k = .error e) ↔
         ¬ InRange r ((l.day * NPD + l.time.nod + k * u.nanos) / NPD)) ∧
     (∀ e, u.addLocalDateTime r l k = .error e → e = .overflowError ∨ e = .valueError) := by
-  obtain ⟨⟨t', d⟩, hte⟩ := addWithDays_ok u l.time k h1 h2
-  obtain ⟨hv', hx⟩ := addWithDays_exact u l.time t' k d hv hte
+  obtain ⟨hv', hx⟩ := addWithDays_exact u l.time k hv
+  unfold addLocalDateTime
+  generalize u.addLocalTimeWithExtraDays l.time k = te at hv' hx
+  obtain ⟨t', d⟩ := te
+  simp only at hv' hx ⊢
   have hq : (l.day * NPD + l.time.nod + k * u.nanos) / NPD = l.day + d := by
     simp only [Valid, NPD] at *; omega
   rw [hq]
-  unfold addLocalDateTime
-  rw [hte]
-  simp only [bind, Except.bind]
   by_cases hd : d = 0
-  · simp only [hd, if_true]
+  · simp only [hd, if_true, bind, Except.bind]
     constructor
     · constructor
       · rintro ⟨e, he⟩; cases he
@@ -274,6 +195,7 @@ theorem addLocalDateTime_raises_iff (u : TimeUnit) (r : DayRange) (l : LocalDate
     | error e =>
       obtain ⟨hnr, hk⟩ := addFixed_err r 1 l.day d e hp
       simp only [Int.mul_one] at hnr
+      simp only [bind, Except.bind]
       constructor
       · constructor
         · intro _; exact hnr
@@ -282,11 +204,51 @@ theorem addLocalDateTime_raises_iff (u : TimeUnit) (r : DayRange) (l : LocalDate
     | ok nd =>
       obtain ⟨hnd, hin⟩ := addFixed_ok r 1 l.day d nd hp hr
       simp only [Int.mul_one] at hnd
+      simp only [bind, Except.bind]
       constructor
       · constructor
         · rintro ⟨e, he⟩; cases he
         · intro hn; subst hnd; exact absurd hin hn
       · intro e he; cases he
+
+theorem timeSteps_exact (t : LocalTime) (p : TimePeriod) (hv : Valid t) :
+    Valid (LocalDateTime.timeSteps t p).1 ∧
+      t.nod + p.hours * NPH + p.minutes * NPMin + p.seconds * NPS + p.milliseconds * NPMs
+        + p.ticks * NPT + p.nanoseconds
+        = (LocalDateTime.timeSteps t p).2 * NPD + (LocalDateTime.timeSteps t p).1.nod := by
+  unfold LocalDateTime.timeSteps
+  obtain ⟨v1, x1⟩ := addWithDays_exact .hours t p.hours hv
+  obtain ⟨v2, x2⟩ := addWithDays_exact .minutes _ p.minutes v1
+  obtain ⟨v3, x3⟩ := addWithDays_exact .seconds _ p.seconds v2
+  obtain ⟨v4, x4⟩ := addWithDays_exact .milliseconds _ p.milliseconds v3
+  obtain ⟨v5, x5⟩ := addWithDays_exact .ticks _ p.ticks v4
+  obtain ⟨v6, x6⟩ := addWithDays_exact .nanoseconds _ p.nanoseconds v5
+  refine ⟨v6, ?_⟩
+  simp only [TimeUnit.nanos] at *
+  c10_consts
+  omega
+
+/-- `plus(Period)`, for all integer components: weeks, days and all time units are added exactly, with the carry
+    into the day number (`d1` is the day reached after the years and months, C09). -/
+theorem plusPeriod_exact (r : DayRange) (l l' : LocalDateTime) (d1 : Int) (p : TimePeriod)
+    (hv : Valid l.time) (hd1 : InRange r d1) (h : LocalDateTime.plusPeriod r l d1 p = .ok l') :
+    Valid l'.time ∧ InRange r l'.day ∧
+      (d1 + 7 * p.weeks + p.days) * NPD + l.time.nod + p.hours * NPH + p.minutes * NPMin + p.seconds * NPS
+        + p.milliseconds * NPMs + p.ticks * NPT + p.nanoseconds = l'.day * NPD + l'.time.nod := by
+  unfold LocalDateTime.plusPeriod at h
+  obtain ⟨vt, xt⟩ := timeSteps_exact l.time p hv
+  generalize LocalDateTime.timeSteps l.time p = te at h vt xt
+  obtain ⟨t', e⟩ := te
+  simp only at h vt xt
+  obtain ⟨dw, hw, h⟩ := bind_ok_inv _ _ _ h
+  obtain ⟨dd, hd, h⟩ := bind_ok_inv _ _ _ h
+  simp only [Except.ok.injEq] at h; subst h
+  obtain ⟨ew, rw'⟩ := addFixed_ok r 7 d1 p.weeks dw hw hd1
+  obtain ⟨ed, rd⟩ := addFixed_ok r 1 dw (p.days + e) dd hd rw'
+  refine ⟨vt, rd, ?_⟩
+  simp only at *
+  c10_consts
+  omega
 
 /-- the documented meaning of `plus(Period)` after the years and months: weeks, days, then each time unit in
     turn, every step a complete LocalDateTime operation with its own carry and range check -/
@@ -302,13 +264,16 @@ def seqPlus (r : DayRange) (l : LocalDateTime) (d1 : Int) (p : TimePeriod) : R L
 
 theorem addLocalDateTime_ok_inv (u : TimeUnit) (r : DayRange) (l l' : LocalDateTime) (k : Int)
     (hr : InRange r l.day) (h : u.addLocalDateTime r l k = .ok l') :
-    ∃ d, u.addLocalTimeWithExtraDays l.time k = .ok (l'.time, d) ∧ l'.day = l.day + d ∧ InRange r l'.day := by
+    l'.time = (u.addLocalTimeWithExtraDays l.time k).1 ∧
+      l'.day = l.day + (u.addLocalTimeWithExtraDays l.time k).2 ∧ InRange r l'.day := by
   unfold addLocalDateTime at h
-  obtain ⟨⟨t', d⟩, hte, h⟩ := bind_ok_inv _ _ _ h
+  generalize u.addLocalTimeWithExtraDays l.time k = te at h ⊢
+  obtain ⟨t', d⟩ := te
+  simp only at h ⊢
   obtain ⟨nd, hnd, h⟩ := bind_ok_inv _ _ _ h
   simp only [Except.ok.injEq] at h; subst h
-  refine ⟨d, hte, ?_⟩
-  simp only at hnd ⊢
+  refine ⟨rfl, ?_⟩
+  simp only
   by_cases hd : d = 0
   · simp only [hd, if_true, Except.ok.injEq] at hnd; subst hnd; subst hd
     exact ⟨by omega, hr⟩
@@ -332,23 +297,26 @@ theorem plusPeriod_order (r : DayRange) (l x : LocalDateTime) (d1 : Int) (p : Ti
   obtain ⟨l5, h5, h6⟩ := bind_ok_inv _ _ _ h
   obtain ⟨ea, ra⟩ := addFixed_ok r 7 d1 p.weeks a ha hd1
   obtain ⟨eb, rb⟩ := addFixed_ok r 1 a p.days b hb ra
-  obtain ⟨e1, s1, q1, r1⟩ := addLocalDateTime_ok_inv _ r _ l1 _ rb h1
-  obtain ⟨e2, s2, q2, r2⟩ := addLocalDateTime_ok_inv _ r _ l2 _ r1 h2
-  obtain ⟨e3, s3, q3, r3⟩ := addLocalDateTime_ok_inv _ r _ l3 _ r2 h3
-  obtain ⟨e4, s4, q4, r4⟩ := addLocalDateTime_ok_inv _ r _ l4 _ r3 h4
-  obtain ⟨e5, s5, q5, r5⟩ := addLocalDateTime_ok_inv _ r _ l5 _ r4 h5
-  obtain ⟨e6, s6, q6, r6⟩ := addLocalDateTime_ok_inv _ r _ x _ r5 h6
+  obtain ⟨s1, q1, r1⟩ := addLocalDateTime_ok_inv _ r _ l1 _ rb h1
+  obtain ⟨s2, q2, r2⟩ := addLocalDateTime_ok_inv _ r _ l2 _ r1 h2
+  obtain ⟨s3, q3, r3⟩ := addLocalDateTime_ok_inv _ r _ l3 _ r2 h3
+  obtain ⟨s4, q4, r4⟩ := addLocalDateTime_ok_inv _ r _ l4 _ r3 h4
+  obtain ⟨s5, q5, r5⟩ := addLocalDateTime_ok_inv _ r _ l5 _ r4 h5
+  obtain ⟨s6, q6, r6⟩ := addLocalDateTime_ok_inv _ r _ x _ r5 h6
   simp only at s1 q1
-  have hts : LocalDateTime.timeSteps l.time p = .ok (x.time, e1 + e2 + e3 + e4 + e5 + e6) := by
+  have hts : LocalDateTime.timeSteps l.time p = (x.time, x.day - b) := by
     unfold LocalDateTime.timeSteps
-    simp only [s1, s2, s3, s4, s5, s6, bind, Except.bind]
+    simp only [← s1, ← s2, ← s3, ← s4, ← s5, ← s6]
+    refine Prod.ext rfl ?_
+    simp only
+    omega
   unfold LocalDateTime.plusPeriod
   rw [hts]
   simp only [bind, Except.bind]
   rw [ha]
   simp only
-  have hday : x.day = a + (p.days + (e1 + e2 + e3 + e4 + e5 + e6)) * 1 := by omega
-  have := addFixed_inRange r 1 a (p.days + (e1 + e2 + e3 + e4 + e5 + e6)) ra (by rw [← hday]; exact r6)
+  have hday : x.day = a + (p.days + (x.day - b)) * 1 := by omega
+  have := addFixed_inRange r 1 a (p.days + (x.day - b)) ra (by rw [← hday]; exact r6)
   unfold DayRange.plusDays
   rw [this, ← hday]
 
@@ -406,11 +374,11 @@ theorem compare_iff (a b : LocalTime) :
 theorem localTime_inv :
     (∀ (u : TimeUnit) t k, Valid t → Valid (u.addLocalTime t k)) ∧
     (∀ (t : LocalTime) p, Valid t → Valid (t.plusPeriod p)) ∧
-    (∀ (u : TimeUnit) t k t' d, Valid t → u.addLocalTimeWithExtraDays t k = .ok (t', d) → Valid t') ∧
+    (∀ (u : TimeUnit) t k, Valid t → Valid (u.addLocalTimeWithExtraDays t k).1) ∧
     (∀ (u : TimeUnit) r l k l', Valid l.time → InRange r l.day → u.addLocalDateTime r l k = .ok l' → Valid l'.time) ∧
     (∀ r l d1 p l', Valid l.time → InRange r d1 → LocalDateTime.plusPeriod r l d1 p = .ok l' → Valid l'.time) := by
   refine ⟨addLocalTime_valid, fun t p hv => (plusPeriod_time_mod t p hv).2,
-    fun u t k t' d hv h => (addWithDays_exact u t t' k d hv h).1,
+    fun u t k hv => (addWithDays_exact u t k hv).1,
     fun u r l k l' hv hr h => (addLocalDateTime_exact u r l l' k hv hr h).1,
     fun r l d1 p l' hv hr h => (plusPeriod_exact r l l' d1 p hv hr h).1⟩
 
